@@ -206,7 +206,9 @@ impl ProfibusPhy for HarnessPhy {
             return r;
         }
         if len > 0 {
-            if self.now_ticks < self.tx_end {
+            // (with an "early TX done" PHY the stack cannot know; the bus-level overlap oracle of
+            // C01 judges that mode)
+            if self.now_ticks < self.tx_end && self.tx_done != TxDone::Early {
                 self.contract
                     .push("transmit_data called while the previous transmission of this station is still on the wire".to_string());
             }
